@@ -1494,7 +1494,8 @@ class AdapterIndex:
                 best_adapter = adapter
                 best_e = e
                 best_m = m
-                best_length = length
+                # The affix is shorter than requested if the read is shorter
+                best_length = len(affix)
 
         if best_m == -1:
             return None
